@@ -27,7 +27,7 @@ def select(pid, m):
     return {"functions": fns, "modules": mods, "clauses": clauses, "undecided_functions": und}
 
 
-def cex_search(pid, seed, sequences=40000, budget=60):
+def cex_search(pid, seed, sequences=40000, budget=300):
     """-> text of a failing history found on the real code, or None"""
     if os.environ.get("PQ_NO_CEX"):
         return None
@@ -40,8 +40,8 @@ def cex_search(pid, seed, sequences=40000, budget=60):
     except Exception:
         return None
     out = r.stdout
-    if r.returncode == 1 and "FAILING HISTORY" in out:
-        return out[out.index("FAILING HISTORY"):]
+    if r.returncode == 1 and "REPLAY:" in out:
+        return out[out.index("FAILING HISTORY"):] if "FAILING HISTORY" in out else out
     return None
 
 
